@@ -423,6 +423,9 @@ ALL_OPS = ['set_parent', 'set_children', 'ch_append', 'ch_insert', 'ch_remove', 
 LINK_OPS = ['set_preds', 'pred_append', 'pred_remove', 'set_succs', 'succ_append', 'succ_remove', 'lshift', 'rshift',
             'pred_remove_all', 'succ_remove_all']
 
+HIER_OPS = ['set_parent', 'set_children', 'ch_append', 'ch_insert', 'ch_remove', 'ch_move', 'ch_sort', 'ch_reorder', 'ch_remove_all',
+            'floordiv', 'wbs_remove', 'wbs_remove_all']
+
 ATTACH_OPS = ['set_parent', 'set_children', 'ch_append', 'ch_insert', 'ch_remove', 'ch_move', 'ch_remove_all',
               'floordiv', 'wbs_remove', 'wbs_remove_all']
 
